@@ -54,6 +54,9 @@ def run(repo, rep):
     rep.clause("C05-d", "HillClimb search and allocate_lr have a ranking: bounded counter, strict improvement, strictly increasing address")
     rep.clause("C05-d'", "overlap / fit / liveness comparisons are at least as conservative as their canonical forms; the offset tested is the offset taken; aborted partial allocations are never accepted")
     rep.undecided("non-overlap of simultaneously live ranges for every range set; footprint >= peak live sum")
+    from .shared import duplicate_branch_lint
+
+    duplicate_branch_lint(repo, rep, "C05-c", ['tensor_allocation', 'greedy_allocation', 'hillclimb_allocation', 'live_range'])
     greedy = repo.mod("greedy_allocation")
     hc = repo.mod("hillclimb_allocation")
     ta = repo.mod("tensor_allocation")
